@@ -28,7 +28,7 @@ JSON
   grep -E "^error" -A 6 "$LOG" | head -30
   exit 2
 fi
-"$BIN_DIR/c20" "$TIER"
+timeout --signal=KILL "${VERIF_WATCHDOG_S:-$([ "$TIER" = thorough ] && echo 43200 || echo 3600)}" "$BIN_DIR/c20" "$TIER"
 RC=$?
 if [ $RC -ne 0 ] && [ $RC -ne 1 ]; then echo "INCONCLUSIVE: c20 exited with $RC"; exit 2; fi
 exit $RC
